@@ -120,6 +120,17 @@ class Body:
         """index of the block this one was cloned from (trace partitioning), else itself"""
         return self.blocks[bb].get("orig", bb)
 
+    def block_of_site(self, orig, toward=None):
+        """current block for an origin-term site (original block number); with several clones prefer one that reaches `toward`"""
+        cl = [i for i, b in enumerate(self.blocks) if b.get("orig", i) == orig and i in set(self.rpo())]
+        if not cl:
+            return orig if orig < len(self.blocks) else 0
+        if toward is not None:
+            for c in cl:
+                if toward in self.reachable(c):
+                    return c
+        return cl[0]
+
     def is_cleanup(self, bb):
         return bool(self.blocks[bb].get("cleanup"))
 
